@@ -126,6 +126,17 @@ Verdict(t, e) ==
            THEN <<"OrbitMember", e.via>>
            ELSE IF e.distinct /\ Cardinality({gs[k] : k \in DOMAIN gs}) # Len(gs) THEN <<"OrbitDistinct", e.via>>
            ELSE <<"ok", "">>
+    [] e.fn = "remove_iso" ->
+         \* ins: a list of graphs on n vertices; out.graphs: the list remove_iso made of it - members of the input list,
+         \* pairwise non-isomorphic, and every input graph isomorphic to one that was kept
+         IF e.out.err # "" THEN <<"Raised", "remove_iso">>
+         ELSE IF \E k \in DOMAIN e.out.graphs : ~GraphOK(n, e.out.graphs[k]) THEN <<"OutputIsGraph", "remove_iso">>
+         ELSE LET ins == [k \in DOMAIN e.ins |-> FromEdges(n, e.ins[k])]
+                  outs == [k \in DOMAIN e.out.graphs |-> GOf(n, e.out.graphs[k])] IN
+           IF \E k \in DOMAIN outs : outs[k] \notin {ins[j] : j \in DOMAIN ins} THEN <<"RemoveIsoFromInput", "remove_iso">>
+           ELSE IF \E j, k \in DOMAIN outs : j < k /\ Isomorphic(outs[j], outs[k], n) THEN <<"RemoveIsoDistinct", "remove_iso">>
+           ELSE IF \E j \in DOMAIN ins : \A k \in DOMAIN outs : ~Isomorphic(ins[j], outs[k], n) THEN <<"RemoveIsoComplete", "remove_iso">>
+           ELSE <<"ok", "">>
     [] e.fn = "orbit" ->
          \* out.graphs: graphs returned by an LC-orbit explorer started from base
          IF e.out.err # "" THEN <<"Raised", e.via>>
